@@ -61,6 +61,47 @@ Proof.
   fold (stream_bytes t). rewrite lenN_app, IH. reflexivity.
 Qed.
 
+(* ---- termination measure: the number of polls an honest multipart body still needs ----
+   one per part header, one per event of each part's stream (the poll that finds a part's stream
+   exhausted hands over the next header or the closing delimiter), one for the closing delimiter,
+   one for the end *)
+Fixpoint hm (i k : nat) : nat :=
+  match k with O => 2%nat | S k' => S (length (stream_of streams i) + hm (S i) k') end.
+Definition wm (m : mp) : nat :=
+  let n := length (m_ranges m) in
+  let i := Nat.div2 (m_state m) in
+  match m_cur m with
+  | Some x => (length (x_s x) + hm (S i) (n - S i))%nat
+  | None => if Nat.eqb (m_state m) (mp_end_state m) then 1%nat
+            else if Nat.odd (m_state m) then (length (stream_of streams i) + hm (S i) (n - S i))%nat
+            else hm i (n - i)
+  end.
+Lemma hm_step i n : (i < n)%nat -> hm i (n - i) = S (length (stream_of streams i) + hm (S i) (n - S i)).
+Proof. intros H. replace (n - i)%nat with (S (n - S i)) by lia. reflexivity. Qed.
+Lemma wm_header m i : m_cur m = None -> m_state m = (2 * i)%nat -> wm m = hm i (length (m_ranges m) - i).
+Proof.
+  intros Hc Hs. unfold wm, mp_end_state. rewrite Hc, Hs, div2_double, odd_double.
+  destruct (Nat.eqb_spec (2 * i) (S (2 * length (m_ranges m)))) as [E|_]; [lia|reflexivity].
+Qed.
+Lemma wm_open m i : m_cur m = None -> m_state m = S (2 * i) -> (i < length (m_ranges m))%nat ->
+  wm m = (length (stream_of streams i) + hm (S i) (length (m_ranges m) - S i))%nat.
+Proof.
+  intros Hc Hs Hi. unfold wm, mp_end_state. rewrite Hc, Hs, div2_double1, odd_double1.
+  destruct (Nat.eqb_spec (S (2 * i)) (S (2 * length (m_ranges m)))) as [E|_]; [lia|reflexivity].
+Qed.
+Lemma wm_body m i x : m_cur m = Some x -> m_state m = S (2 * i) ->
+  wm m = (length (x_s x) + hm (S i) (length (m_ranges m) - S i))%nat.
+Proof. intros Hc Hs. unfold wm. now rewrite Hc, Hs, div2_double1. Qed.
+Lemma wm_done m : m_cur m = None -> m_state m = mp_end_state m -> wm m = 1%nat.
+Proof. intros Hc Hs. unfold wm. rewrite Hc, Hs, Nat.eqb_refl. reflexivity. Qed.
+Lemma xl_poll_consumes x x' r : xl_poll x = (x', r) -> (r = PPending \/ exists d, r = PData d) ->
+  length (x_s x) = S (length (x_s x')).
+Proof.
+  intros H Hr. rewrite (xl_poll_stream _ _ _ H). unfold xl_poll in H.
+  destruct (x_s x) as [|e t]; [|reflexivity].
+  exfalso. destruct (x_rem x =? 0); inversion H; subst; destruct Hr as [Hr|[d Hr]]; discriminate Hr.
+Qed.
+
 Inductive WState (m : mp) : bytes -> Prop :=
 | WS_header i :
     m_state m = (2 * i)%nat -> m_cur m = None -> (i <= length (m_ranges m))%nat -> length (m_calls m) = i ->
@@ -81,7 +122,8 @@ Inductive WState (m : mp) : bytes -> Prop :=
 Theorem wire_step m pend : MInv m -> honest_for (m_ranges m) -> WState m pend ->
   exists m' r, mp_poll MP_FUEL streams m = Ok (m', r) /\ is_perr r = false /\ MInv m' /\
                m_ranges m' = m_ranges m /\
-               exists pend', WState m' pend' /\ pend = res_bytes r ++ pend' /\ (r = PEnd -> pend = []).
+               (exists pend', WState m' pend' /\ pend = res_bytes r ++ pend' /\ (r = PEnd -> pend = [])) /\
+               (r = PEnd \/ wm m = S (wm m')).
 Proof.
   intros HI Hh HW. destruct (mp_poll_total streams m HI) as (m' & r & E & HI'). exists m', r. split; [exact E|].
   destruct HI as (Hl & Hr & _). unfold MP_FUEL in E.
@@ -90,7 +132,7 @@ Proof.
             length (m_calls m0) = S i -> honest_x x -> length (m_ph m0) = length (m_ranges m0) ->
             rev (m_calls m0) = firstn (length (m_calls m0)) (m_ranges m0) ->
             mp_poll (S f) streams m0 = Ok (m1, r1) ->
-            is_perr r1 = false /\ m_ranges m1 = m_ranges m0 /\
+            wm m0 = S (wm m1) /\ is_perr r1 = false /\ m_ranges m1 = m_ranges m0 /\
             exists pend', WState m1 pend' /\
               stream_bytes (x_s x) ++ tail_bytes (skipn (S i) (m_ph m0)) (skipn (S i) (m_ranges m0)) ++ PART_TRAILER = res_bytes r1 ++ pend' /\
               (r1 = PEnd -> False)).
@@ -98,13 +140,19 @@ Proof.
     destruct (xl_poll x) as [x' rx] eqn:Ex. destruct (honest_x_step _ _ _ Hx Ex) as [Hx' Hne].
     pose proof (xl_poll_stream _ _ _ Ex) as Hst.
     destruct rx as [|d| |e0]; try discriminate.
-    - inversion H0; subst. split; [reflexivity|]. split; [reflexivity|]. eexists. split.
+    - inversion H0; subst.
+      split; [rewrite (wm_body m0 i x Hc Hs); match goal with |- _ = S (wm ?m1) => rewrite (wm_body m1 i x' eq_refl Hs) end; cbn [m_ranges];
+              rewrite (xl_poll_consumes _ _ _ Ex (or_introl eq_refl)); reflexivity|].
+      split; [reflexivity|]. split; [reflexivity|]. eexists. split.
       + eapply (WS_body _ i x'); cbn [m_state m_cur m_ranges m_calls]; auto.
       + cbn [m_ph m_ranges res_bytes app]. split; [|discriminate].
         unfold xl_poll in Ex. destruct (x_s x) as [|[|d|c] t] eqn:Es; try (destruct (x_rem x =? 0); discriminate);
           try (destruct (lenN d <=? x_rem x); discriminate); inversion Ex; subst. reflexivity.
     - unfold u64_sub in H0. destruct (lenN d <=? m_rem m0); [|discriminate]. cbn [bind] in H0.
-      inversion H0; subst. split; [reflexivity|]. split; [reflexivity|]. eexists. split.
+      inversion H0; subst.
+      split; [rewrite (wm_body m0 i x Hc Hs); match goal with |- _ = S (wm ?m1) => rewrite (wm_body m1 i x' eq_refl Hs) end; cbn [m_ranges];
+              rewrite (xl_poll_consumes _ _ _ Ex (or_intror (ex_intro _ d eq_refl))); reflexivity|].
+      split; [reflexivity|]. split; [reflexivity|]. eexists. split.
       + eapply (WS_body _ i x'); cbn [m_state m_cur m_ranges m_calls]; auto.
       + cbn [m_ph m_ranges res_bytes]. split; [|discriminate].
         unfold xl_poll in Ex. destruct (x_s x) as [|[|d0|c] t] eqn:Es; try (destruct (x_rem x =? 0); discriminate); try discriminate.
@@ -117,31 +165,45 @@ Proof.
       rewrite div2_double, odd_double, andb_false_r in H0. rewrite Hnil. cbn [stream_bytes flat_map app].
       destruct (Nat.eqb_spec (S i) (length (m_ranges m0))) as [Heq|Hne2].
       + unfold u64_sub in H0. destruct (lenN PART_TRAILER <=? m_rem m0); [|discriminate]. cbn [bind] in H0.
-        inversion H0; subst. split; [reflexivity|]. split; [reflexivity|]. exists []. split.
+        inversion H0; subst.
+        split; [rewrite (wm_body m0 i x Hc Hs), Hnil, wm_done;
+                [|reflexivity|unfold mp_end_state; cbn [m_state m_ranges]; lia];
+                replace (length (m_ranges m0) - S i)%nat with 0%nat by lia; reflexivity|].
+        split; [reflexivity|]. split; [reflexivity|]. exists []. split.
         * apply WS_done; unfold mp_end_state; cbn [m_state m_cur m_rem m_ranges m_calls]; try reflexivity; try lia; exact Hci.
         * rewrite skipn_all2 by lia. cbn [tail_bytes res_bytes app]. rewrite app_nil_r. split; [reflexivity|discriminate].
       + destruct (nth_error (m_ph m0) (S i)) as [v|] eqn:Ev; [|discriminate].
         unfold u64_sub in H0. destruct (lenN v <=? m_rem m0); [|discriminate]. cbn [bind] in H0.
-        inversion H0; subst. split; [reflexivity|]. split; [reflexivity|].
+        inversion H0; subst.
         assert (Hlt : (S i < length (m_ranges m0))%nat) by lia.
+        split; [rewrite (wm_body m0 i x Hc Hs), Hnil, (wm_open _ (S i));
+                [|reflexivity|cbn [m_state]; lia|cbn [m_ranges]; exact Hlt];
+                cbn [m_ranges length plus]; apply hm_step; exact Hlt|].
+        split; [reflexivity|]. split; [reflexivity|].
         destruct (nth_error_some_lt (m_ranges m0) (S i) Hlt) as [[a e] Hre].
         eexists. split.
         * eapply (WS_open _ (S i) a e); cbn [m_state m_cur m_ranges m_calls]; auto; try lia.
         * cbn [m_ph m_ranges res_bytes]. rewrite (skipn_nth _ _ _ Ev), (skipn_nth _ _ _ Hre). cbn [tail_bytes].
           rewrite set_nth_skipn by lia. rewrite <- !app_assoc. split; [reflexivity|discriminate]. }
-  assert (Goal' : is_perr r = false /\ m_ranges m' = m_ranges m /\
+  assert (Goal' : (r = PEnd \/ wm m = S (wm m')) /\ is_perr r = false /\ m_ranges m' = m_ranges m /\
                   exists pend', WState m' pend' /\ pend = res_bytes r ++ pend' /\ (r = PEnd -> pend = [])).
   { destruct HW as [i Hs Hc Hi Hcl Hci|i a e Hs Hc Hre Hcl Hci|i x Hs Hc Hi Hcl Hx Hci|Hs Hc Hci].
     - rewrite mp_poll_S, Hc in E. unfold mp_idle in E. rewrite Hs, div2_double, odd_double, andb_false_r in E.
       destruct (Nat.eqb_spec i (length (m_ranges m))) as [Heq|Hne].
       + unfold u64_sub in E. destruct (_ <=? _); [|discriminate]. cbn [bind] in E. injection E as Em Er; subst m' r.
+        split; [right; rewrite (wm_header m i Hc Hs), wm_done;
+                [|reflexivity|unfold mp_end_state; cbn [m_state m_ranges]; lia];
+                replace (length (m_ranges m) - i)%nat with 0%nat by lia; reflexivity|].
         split; [reflexivity|]. split; [reflexivity|]. exists []. split.
         * apply WS_done; unfold mp_end_state; cbn [m_state m_cur m_ranges m_calls]; [lia|reflexivity|exact Hci].
         * rewrite !skipn_all2 by lia. cbn [tail_bytes res_bytes app]. rewrite app_nil_r. split; [reflexivity|discriminate].
       + destruct (nth_error (m_ph m) i) as [v|] eqn:Ev; [|discriminate].
         unfold u64_sub in E. destruct (_ <=? _); [|discriminate]. cbn [bind] in E. injection E as Em Er; subst m' r.
-        split; [reflexivity|]. split; [reflexivity|].
         assert (Hlt : (i < length (m_ranges m))%nat) by lia.
+        split; [right; rewrite (wm_header m i Hc Hs), (wm_open _ i);
+                [|reflexivity|cbn [m_state]; rewrite ?Hs; reflexivity|cbn [m_ranges]; exact Hlt];
+                cbn [m_ranges]; apply hm_step; exact Hlt|].
+        split; [reflexivity|]. split; [reflexivity|].
         destruct (nth_error_some_lt (m_ranges m) i Hlt) as [[a e] Hre].
         eexists. split.
         * eapply (WS_open _ i a e); cbn [m_state m_cur m_ranges m_calls]; auto.
@@ -161,17 +223,20 @@ Proof.
       assert (Hci0 : rev (m_calls m0) = firstn (length (m_calls m0)) (m_ranges m0)).
       { cbn [m0 m_calls m_ranges rev length]. rewrite Hci, Hcl. clear -Hre. revert i Hre. generalize (m_ranges m).
         induction l as [|y l IH]; intros [|i] H; cbn in *; try discriminate; [now inversion H|]. f_equal. now apply IH. }
-      destruct (Hbody 2%nat m0 i x0 m' r eq_refl eq_refl Hi Hcalls0 Hx0 Hl Hci0 E) as (Hne & Hrs & pend' & HW' & Heq & Hnend).
+      destruct (Hbody 2%nat m0 i x0 m' r eq_refl eq_refl Hi Hcalls0 Hx0 Hl Hci0 E) as (WM & Hne & Hrs & pend' & HW' & Heq & Hnend).
+      split; [right; rewrite <- WM, (wm_open m i Hc Hs Hi), (wm_body m0 i x0 eq_refl eq_refl); reflexivity|].
       split; [exact Hne|]. split; [exact Hrs|]. exists pend'. split; [exact HW'|].
       cbn [m0 m_ph m_ranges x0 x_s] in Heq. rewrite Hb in Heq. split; [exact Heq|]. intros ->. exfalso. now apply Hnend.
-    - destruct (Hbody 3%nat m i x m' r Hs Hc Hi Hcl Hx Hl Hci E) as (Hne & Hrs & pend' & HW' & Heq & Hnend).
+    - destruct (Hbody 3%nat m i x m' r Hs Hc Hi Hcl Hx Hl Hci E) as (WM & Hne & Hrs & pend' & HW' & Heq & Hnend).
+      split; [right; exact WM|].
       split; [exact Hne|]. split; [exact Hrs|]. exists pend'. split; [exact HW'|]. split; [exact Heq|].
       intros ->. exfalso. now apply Hnend.
     - rewrite mp_poll_S, Hc in E. unfold mp_idle in E. rewrite Hs in E. unfold mp_end_state in E.
       rewrite div2_double1, odd_double1, Nat.eqb_refl in E. cbn [andb] in E.
       destruct (m_rem m =? 0); [|discriminate]. injection E as Em Er; subst m' r.
+      split; [left; reflexivity|].
       split; [reflexivity|]. split; [reflexivity|]. exists []. split; [now apply WS_done|]. split; reflexivity. }
-  destruct Goal' as (G1 & G2 & G3). split; [exact G1|]. split; [exact HI'|]. split; [exact G2|exact G3].
+  destruct Goal' as (G0 & G1 & G2 & G3). split; [exact G1|]. split; [exact HI'|]. split; [exact G2|]. split; [exact G3|exact G0].
 Qed.
 
 (* any number of polls: never an error; what was handed over plus what is still to come is the
@@ -185,7 +250,7 @@ Proof.
   induction n as [|k IH]; intros m pend rs bf HI Hh HW HH; cbn [run] in HH.
   - inversion HH; subst. split; [reflexivity|]. exists m, pend. repeat split; auto. discriminate.
   - cbn [body_poll] in HH.
-    destruct (wire_step m pend HI Hh HW) as (m1 & r & E & Hne & HI1 & Hrs1 & pend1 & HW1 & Eq1 & Hend1).
+    destruct (wire_step m pend HI Hh HW) as (m1 & r & E & Hne & HI1 & Hrs1 & (pend1 & HW1 & Eq1 & Hend1) & _).
     rewrite E in HH. cbn [bind] in HH.
     destruct (run k streams (BMulti m1)) as [[rs' bf']|t] eqn:Hr; [|discriminate]. inversion HH; subst.
     assert (Hh1 : honest_for (m_ranges m1)) by (rewrite Hrs1; exact Hh).
@@ -197,6 +262,32 @@ Proof.
       (* the end was reported now: nothing was pending, and nothing comes after *)
       specialize (Hend1 eq_refl). cbn [res_bytes app] in Hend1. rewrite Hend1 in Eq2.
       apply app_eq_nil in Eq2. destruct Eq2 as [_ E2]. exact E2.
+Qed.
+(* ---- liveness: an honest multipart body reaches its clean end, within wm m polls ---- *)
+Lemma hm_ge2 i k : (2 <= hm i k)%nat.
+Proof. revert i; induction k as [|k IH]; intros i; cbn [hm]; [lia|]. specialize (IH (S i)). lia. Qed.
+Lemma wm_pos m pend : WState m pend -> (1 <= wm m)%nat.
+Proof.
+  intros [i Hs Hc Hi Hcl Hci|i a e Hs Hc Hre Hcl Hci|i x Hs Hc Hi Hcl Hx Hci|Hs Hc Hci].
+  - rewrite (wm_header m i Hc Hs). pose proof (hm_ge2 i (length (m_ranges m) - i)). lia.
+  - assert (Hi : (i < length (m_ranges m))%nat) by (apply nth_error_Some; congruence).
+    rewrite (wm_open m i Hc Hs Hi). pose proof (hm_ge2 (S i) (length (m_ranges m) - S i)). lia.
+  - rewrite (wm_body m i x Hc Hs). pose proof (hm_ge2 (S i) (length (m_ranges m) - S i)). lia.
+  - rewrite (wm_done m Hc Hs). lia.
+Qed.
+Theorem wire_terminates k : forall m pend rs bf, MInv m -> honest_for (m_ranges m) -> WState m pend ->
+  (wm m <= k)%nat -> run k streams (BMulti m) = Ok (rs, bf) -> existsb is_pend rs = true.
+Proof.
+  induction k as [|k IH]; intros m pend rs bf HI Hh HW Hk HH.
+  - pose proof (wm_pos m pend HW). lia.
+  - cbn [run body_poll] in HH.
+    destruct (wire_step m pend HI Hh HW) as (m1 & r & E & Hne & HI1 & Hrs1 & (pend1 & HW1 & Eq1 & Hend1) & Hm).
+    rewrite E in HH. cbn [bind] in HH.
+    destruct (run k streams (BMulti m1)) as [[rs' bf']|t] eqn:Hr; [|discriminate]. inversion HH; subst.
+    cbn [existsb]. destruct Hm as [->|Hm]; [reflexivity|].
+    apply orb_true_iff. right.
+    assert (Hh1 : honest_for (m_ranges m1)) by (rewrite Hrs1; exact Hh).
+    eapply (IH m1 pend1 rs' bf HI1 Hh1 HW1); [lia|exact Hr].
 Qed.
 End Wire.
 
@@ -223,7 +314,8 @@ Theorem multipart_response now ent req r streams :
      forall n rs_ bf, run n streams (fst (body_init streams (rplan r))) = Ok (rs_, bf) ->
        existsb is_perr rs_ = false /\
        (exists rest, data_bytes rs_ ++ rest = mp_wire content (e_len ent) eh rs) /\
-       (existsb is_pend rs_ = true -> data_bytes rs_ = mp_wire content (e_len ent) eh rs)).
+       (existsb is_pend rs_ = true -> data_bytes rs_ = mp_wire content (e_len ent) eh rs) /\
+       ((hm streams 0 (length rs) <= n)%nat -> existsb is_pend rs_ = true)).
 Proof.
   intros HL HH Hm Hs Hct. pose proof (serve_shape _ _ now ent req r HL HH) as S.
   destruct S as [| | | | | |a e Hg Hc Hr Hae Hel|rs total Hg Hc Hr Hw Hlen each Ht Htl Hest|]; cbn [status] in Hs; try discriminate.
@@ -247,6 +339,9 @@ Proof.
       { apply (WS_header content m0 0); cbn [m0 m_state m_cur m_ranges m_calls length]; try reflexivity; lia. }
       destruct (wire_run content streams n m0 _ rs_ bf HI0 Hh HW0 Hrun) as (He & m' & pend' & _ & _ & _ & Eq & Hend).
       rewrite Heach, tail_bytes_wire in Eq.
-      split; [exact He|]. split; [exists pend'; exact Eq|]. intros Hp. rewrite (Hend Hp), app_nil_r in Eq. exact Eq.
+      split; [exact He|]. split; [exists pend'; exact Eq|]. split.
+      * intros Hp. rewrite (Hend Hp), app_nil_r in Eq. exact Eq.
+      * intros Hn. eapply (wire_terminates content streams n m0 _ rs_ bf HI0 Hh HW0); [|exact Hrun].
+        rewrite (wm_header streams m0 0 eq_refl eq_refl). cbn [m0 m_ranges]. rewrite Nat.sub_0_r. exact Hn.
 Qed.
 End Top.
